@@ -131,19 +131,11 @@ class Engine(Interp):
             ms.contents = ()
             if ms.examined is not None:
                 ms.examined = (cw(ms.examined[0]), pos(ms.examined[1]), pos(ms.examined[2]))
-        # zone: move the old names out of the way, tie the canonical names to them, project
-        z = s2.zone
-        tmp = {}
-        for v in list(z.vars):
-            if v is ZERO or v == ZERO or is_persistent(v):
-                continue
-            tmp[v] = Term('~' + v.name)
-        z.rename(tmp)
-        for c, old in pairs:
-            o = tmp.get(old, old) if isinstance(old, Term) else old
-            z.add_eq(c, o)
-        keep = {c for c, _ in pairs} | {v for v in z.vars if is_persistent(v)}
-        z.project(keep)
+            if ms.pending is not None:
+                ms.pending = (pos(ms.pending[0]), cw(ms.pending[1]) if ms.pending[1] is not None else None)
+        # zone: the canonical names are aliases of the old terms; everything else (except the
+        # persistent entry-state terms) is projected away
+        s2.zone = s2.zone.remap(pairs, is_persistent)
         shape = self.shape_of(s2)
         return shape, s2
 
@@ -154,7 +146,7 @@ class Engine(Interp):
         for mid in sorted(st.maps):
             ms = st.maps[mid]
             mp.append((mid, ms.len, ms.cap, ms.holes, ms.extras, ms.hole_rng, ms.extra_rng, ms.contents,
-                       ms.exempt, ms.dead, ms.owned_extras, ms.examined))
+                       ms.exempt, ms.dead, ms.owned_extras, ms.examined, ms.pending))
         return (fr, ob, tuple(mp), st.unwinding, tuple(sorted(st.fmeta.items(), key=lambda kv: kv[0])) and None)
 
     def loop_join(self, table, key, st):
@@ -390,6 +382,8 @@ class Engine(Interp):
         tag = c[1] if c[0] == 'boolu' else ('?',)
         a.log('assume', tag, want)
         st.log('assume', tag, not want)
+        self.note_answer(a, tag, want)
+        self.note_answer(st, tag, not want)
         return a, st
 
     def exec_switch(self, st, fid, t):
@@ -586,7 +580,8 @@ class Engine(Interp):
         cls = []
         for a in args:
             self.find_closures(st, a, cls)
-        st.log('user', callee['def'], tuple(self.tag_of(a) for a in args))
+        rtags = tuple(self.rtag(st, a) for a in args)
+        st.log('user', callee['def'], rtags)
         self.stats['user_calls'] += 1
         self.havoc_mut_refs(st, args)
         self.give_away(st, args, nm)
@@ -607,7 +602,7 @@ class Engine(Interp):
                 u.log('panic', 'user', nm)
                 self.stats['escapes'] += 1
                 out.append(('unwind', u, None))
-            val = self.mk_unknown(s, dest_ty, ('u', callee['def'], tuple(self.tag_of(a) for a in args)), gs)
+            val = self.mk_unknown(s, dest_ty, ('u', callee['def'], rtags), gs)
             out.append(('ret', s, val))
         return out
 
